@@ -68,7 +68,7 @@ prop("C20", "The --backup write protocol never loses the original", "fault_enume
      assumptions=["POSIX model: fs::write may leave a prefix, fs::rename is atomic and replaces its target; a crash happens between operations or inside a write",
                   "file contents drawn from 4 short texts: the function never inspects the bytes beyond `original_text != formatted_text`"],
      )
-PROPS["C20"]["statement_clauses"]["U25"] = "When rustfmt rewrites a file with --backup ..."
+
 
 prop("C15", "Output is a function of source and configuration only", "proof",
      ["U05", {"unit": "U23", "only": r"^format_input_inner"}],
@@ -184,18 +184,48 @@ prop("C09", "Released style editions are frozen", "other",
      assumptions=["the style edition influences formatting only through the scanned token forms (values copied into UseSegment.style_edition are compared with the same operators, which the scan also sees)"])
 
 prop("C13", "Exactly the reachable, non-excluded files are formatted, each once", "other",
-     [{"unit": "U23", "only": r"^format_project"}],
+     [{"unit": "U23", "only": r"^format_project"}, "U17"],
      [{"clause": "of the (path, module) list produced by module resolution, exactly the non-excluded entries are formatted, each once, in order; stdin never filters; children are resolved only for file input without skip_children", "status": "bounded", "by": "U23 (real format_project on event-recording shims, <= 2 files)"},
-      {"clause": "exclusion decision: skip attribute, skip_children, ignore, @generated (should_skip_module, is_generated_file)", "status": "bounded", "by": "U17 (when built)"},
+      {"clause": "exclusion decision: skip attribute, skip_children, ignore, @generated (should_skip_module: proved equal to the statement's formula for file input; is_generated_file, IgnorePathSet bounded)", "status": "proved", "by": "U17 (Kani complete) + U17 native — KNOWN FINDING: stdin + @generated"},
       {"clause": "reachability: which files `mod name;` declarations resolve to (name.rs / name/mod.rs, #[path], cfg_if!, nested inline modules), ambiguity and missing-module errors, each file reached twice is listed once", "status": "not_decided", "by": "- (ModResolver over rustc_ast / rustc_expand; the larger half of the property)"}],
      "Only the consumer side of module resolution is within reach: given the resolver's list, format_project formats precisely the non-excluded entries once each. The reachability rules themselves live in ModResolver over rustc types and are not decided by this technique.",
      statement_clauses={"U23": "Each such file is formatted once ..., except modules or files that are skipped, matched by `ignore`, marked @generated ..., or any child when skip_children is set or the input is standard input"})
+
+prop("C01", "Formatting preserves the meaning of the program", "other",
+     ["U18"],
+     [{"clause": "no keyword is added, dropped or altered at the leaves that spell modifiers: format_coro/constness/constness_right/defaultness/safety/auto/mutability map every variant to its own keyword(s) + one blank, the absent modifier to the empty string, no two modifiers to the same text", "status": "proved", "by": "U18 (Kani, complete over shim enums with exactly the variants the exhaustive matches name) + native re-check on the REAL rustc_ast enums"},
+      {"clause": "explicit extern ABI: `extern \"C\"` is added/removed only as the option dictates; any other ABI is emitted as one string literal with the same value", "status": "bounded", "by": "U18 native (14 ABI spellings x explicit_abi, real ast::Extern)"},
+      {"clause": "restricted visibility spelling (format_visibility on real ast::Visibility, 15 paths)", "status": "bounded", "by": "U18 native"},
+      {"clause": "literal-spelling rewrites keep the literal's kind, suffix and value (hex_literal_case, float_literal_trailing_zero); Preserve leaves the spelling untouched; a second pass changes nothing", "status": "bounded", "by": "U18 native (20 integer spellings, float grid x all settings; oracle: rustc_lexer + numeric parse)"},
+      {"clause": "macro_rules bodies are formatted through a reversible substitution of metavariables (replace_names / register_metavariable / the undo loop of MacroBranch::rewrite)", "status": "bounded", "by": "U18 native (all bodies <= 6 over 7 characters + <= 5 over {$,a,z,blank}) — KNOWN FINDING: placeholder collisions (z$z)"},
+      {"clause": "every rewriter re-emits every field of its AST node; fallback to the source on a failed rewrite; missed-span copying; parenthesis / arm / closure normalisations; rewrite_string", "status": "not_decided", "by": "- (the property's bulk: no contract within reach expresses token preservation of format_expr(e) without a model of rustc_ast)"}],
+     "Only the leaves are within reach: the functions that spell keywords, ABIs, visibilities and literals, and the metavariable substitution. They are loop-free tables (Kani, complete) or small string functions (bounded-exhaustive against rustc_lexer). "
+     "That the ~20 kLoC of rewriters preserve the token sequence is not decided by this technique.",
+     statement_clauses={"U18": "No identifier, literal, operator, keyword, lifetime, visibility, attribute or doc comment is otherwise added, dropped, reordered or altered, inside macro invocations and macro definitions as well as in ordinary code"})
+
+prop("C04", "Skip-marked code and opted-out files are emitted verbatim", "other",
+     ["U17", "U24"],
+     [{"clause": "whole-file opt-out decision: skip attribute / skip_children / ignore / @generated (should_skip_module) — formula taken from the statement equals the code for every file input", "status": "proved", "by": "U17 (Kani, complete over all boolean combinations)"},
+      {"clause": "the same decision end-to-end through the real format_input_inner / format_project / should_skip_module / is_generated_file / IgnorePathSet on recording shims: opted-out files never reach the emitter; disable_all_formatting returns before anything runs and echoes stdin byte for byte", "status": "bounded", "by": "U17 native (2048 combinations) — KNOWN FINDING: stdin + @generated"},
+      {"clause": "@generated is looked for in the first generated_marker_line_search_limit lines only", "status": "bounded", "by": "U17 native"},
+      {"clause": "rustfmt::skip::macros / rustfmt::skip::attributes name scoping: skip(name) holds exactly for the names added (or all), monotone, All absorbing", "status": "bounded", "by": "U17 native (whole file skip.rs)"},
+      {"clause": "a #[rustfmt::skip] item is pushed verbatim and the line range recorded for it is exactly its output lines", "status": "bounded", "by": "U24"},
+      {"clause": "every node kind (expression, field, variant, match arm ...) returns its source snippet when it carries the attribute; cfg_attr / deprecated rustfmt_skip spellings (contains_skip over real ast::Attribute)", "status": "not_decided", "by": "-"}],
+     "Decision tables proved / enumerated; the per-node verbatim copying inside the rewriters is not decided.",
+     statement_clauses={"U17": "A file that opts out as a whole (inner skip attribute, disable_all_formatting, an ignore match, or an @generated marker when generated files are excluded) is neither changed nor reported as differing", "U24": "appear in the output with their original bytes"})
+
+PROPS["C13"]["statement_clauses"]["U17"] = "except modules or files that are skipped, matched by `ignore`, marked @generated when generated files are excluded, or any child when skip_children is set or the input is standard input"
+PROPS["C20"]["statement_clauses"]["U25"] = "When rustfmt rewrites a file with --backup ..."
 
 # ------------------------------------------------------------------ MANIFEST texts
 T_V = "contract-based deductive verification: Verus on mechanically extracted real functions"
 T_K = "contract-based verification: Kani harnesses over full-domain symbolic inputs on extracted loop-free real functions (complete)"
 T_B = "bounded-exhaustive contract checking of the natively compiled real function text (stand-in, labelled bounded)"
 MANIFEST_TEXT = {
+    "C01": {"text": "Only the leaves: modifier keyword tables proved complete with Kani (and re-checked on the real rustc_ast enums), extern ABI / visibility / literal re-spelling / macro metavariable substitution checked bounded-exhaustively against rustc_lexer. Token preservation by the rewriters (the bulk of C01) is NOT decided.",
+            "note": "shim enums mirror rustc_ast variants (a missing variant would not compile); RewriteContext/Shape shims for the literal functions; one recorded known finding (placeholder collisions)", "technique": T_K + " + " + T_B},
+    "C04": {"text": "Opt-out decision table proved (Kani, complete) and exercised end-to-end through the real format_project on recording shims; @generated search limit, skip-name scoping and the recorded skipped-line range enumerated. Per-node verbatim copying in the rewriters is NOT decided.",
+            "note": "Parser / ModResolver / emitter are recording shims; contains_skip is a harness-chosen bit; one recorded known finding (stdin + @generated, pinned by an existing test)", "technique": T_K + " + " + T_B},
     "C05": {"text": "Exit-status and error-folding clauses proved (Kani, complete) on the extracted statements of bin/main.rs and Session; 'a file is only replaced by its complete formatted text, only if it differs' enumerated on the real FilesEmitter against a recording FS model. That every input fault is detected before the first write is NOT decided.",
             "note": "Kani/CBMC, extractor; Session/Config shims; FS model; rustc parser, ModResolver and format_project ordering are unverified surroundings", "technique": T_K + " + " + T_B},
     "C06": {"text": "--check exit formula proved (Kani, complete); files/stdout emitter behaviour and the create_emitter table enumerated completely on the real text; token-level frame scan shows the non-files emitters name no file-system API. mtime and stdin-vs-path equality not decided.",
